@@ -4,33 +4,47 @@ import json, os
 ROOT = os.path.dirname(os.path.dirname(os.path.abspath(__file__)))
 ALL = ["C%02d" % i for i in range(1, 39)]
 
-PGSIM_NOTE = ("pgsim: a hand-written in-process interpreter of the Postgres subset the ledger uses "
-              "(not validated against a real server: none exists in this sandbox); the real Go code and the real SQL text run on it")
+PGSIM_NOTE = ("trusted base: pgsim, a hand-written in-process interpreter of the Postgres subset the ledger uses "
+              "(not validated against a real server: none exists in this sandbox); the real Go code, the real migrations "
+              "and the real SQL text run on it; bounded universe (see evidence 'rule')")
+SEQ = ("explicit-state enumeration of every operation sequence up to a depth bound on the real stack "
+       "(system controller -> ledger controller -> store -> bun -> SQL on pgsim), reference-model oracle after every sequence")
 
 # id -> (level, technique, text, note, design_ref)
 CHECKS = {
+ "C01": ("model_checking", SEQ, "All sequences of length<=3 (quick)/4 (thorough) over a 16-op write alphabet; conservation per asset checked in every view (volumes listing, aggregated balances, PIT in both date modes at every recorded instant, raw accounts_volumes and moves).", PGSIM_NOTE, "5 Group A"),
+ "C02": ("model_checking", SEQ, "All sequences of length<=3/4 over the write alphabet; volumes from GetAccount/ListAccounts/GetVolumesWithBalances/GetAggregatedBalances equal the fold of committed postings (failed and dry-run writes excluded), from the live process and from a freshly attached one.", PGSIM_NOTE, "5 Group A"),
+ "C03": ("model_checking", SEQ, "All sequences of length<=3/4; for every transaction after every sequence: postCommitVolumes, JSON preCommitVolumes, per-move post-commit volumes and log payloads equal the reference; re-checked after every later write (immutability).", PGSIM_NOTE, "5 Group A"),
+ "C04": ("model_checking", SEQ, "All sequences of length<=3/5 over creates with past/equal/future effective timestamps (ties forced) and reverts; effective volumes per transaction and per account at PIT equal the fold in (effective timestamp, insertion order). The set_effective_volumes/update_effective_volumes triggers are executed from the migration text.", PGSIM_NOTE, "5 Group A"),
+ "C05": ("model_checking", SEQ, "All sequences of length<=3/4; PIT and (OOT,PIT) reads at every recorded instant +-1us in both date modes equal the reference folds; account/transaction visibility and reverted flag at t.", PGSIM_NOTE, "5 Group A"),
+ "C08": ("model_checking", SEQ, "Sequential half: all sequences of length<=3/4 over every write kind plus failing and dry-run writes; exactly one log per successful write and none otherwise, ids increasing, state rebuilt from log payloads alone equals every read. Concurrent half pending (K2).", PGSIM_NOTE, "5 Group B"),
+ "C15": ("model_checking", SEQ, "Sequential half: all sequences of length<=3/4 over creates and reverts (plain/forced/at effective date/dry run, reverts of reverts, second reverts): postings inverse, mark, timestamp rule, single success, no effect on failure, balances unchanged by the pair.", PGSIM_NOTE, "5 Group B"),
+ "C17": ("model_checking", SEQ, "For each of the 4 metadata-history feature combinations: all sequences of length<=3/4 over every metadata write path; current metadata == last-write-wins fold; PIT reads == revision at t (SYNC) or current metadata (DISABLED).", PGSIM_NOTE, "5 Group A"),
+ "C18": ("model_checking", SEQ, "All sequences of length<=3/4 over back/future-dated creates, failing creates and metadata-only accounts: listed set, firstUsage (lowered by back-dating), insertionDate immutable, PIT visibility.", PGSIM_NOTE, "5 Group A"),
  "C24": ("exploration", "bounded-exhaustive enumeration of portion vectors x amounts against an arithmetic reference",
-         "Every allotment of length<=4(5) over rationals with denominator<=7(8) incl. zero portions and `remaining` at every position, times 63+ amounts incl. >2^64, is allocated by the real Allotment.Allocate and compared with floor+leftover-to-earliest reference.",
+         "Every allotment of length<=4(5) over rationals with denominator<=7(8) incl. zero portions and `remaining` at every position, times 63+ amounts incl. >2^64, allocated by the real Allotment.Allocate and compared with floor+leftover-to-earliest.",
          "machine.NewAllotment/Allocate called directly; no SQL involved", "5 Group E"),
- "C02": ("model_checking", "explicit-state enumeration of all operation sequences up to a depth bound on the real stack over pgsim, reference-model comparison after every sequence",
-         "Every sequence of length<=3 (quick) / 4 (thorough) over a 16-operation write alphabet is executed through the real system controller -> ledger controller -> store -> bun -> SQL on pgsim; volumes reported by GetAccount/ListAccounts/GetVolumesWithBalances/GetAggregatedBalances must equal the fold of committed postings (failed and dry-run writes excluded), for the live process and a freshly attached one.",
-         PGSIM_NOTE, "5 Group A"),
 }
 
 NA_REASON_PENDING = "check not built yet in this round (planned: see DESIGN.md section 5); not claimed"
 
 def main():
+    extra_path = os.path.join(ROOT, "tools", "checks_extra.json")
+    extra = json.load(open(extra_path)) if os.path.exists(extra_path) else {}
+    table = dict(CHECKS)
+    for k, v in extra.items():
+        table[k] = tuple(v)
     checks = []
     for pid in ALL:
-        if pid not in CHECKS:
+        if pid not in table:
             continue
-        level, tech, text, note, ref = CHECKS[pid]
+        level, tech, text, note, ref = table[pid]
         checks.append({
             "property_id": pid,
             "quick_cmd": "./check %s quick" % pid,
             "thorough_cmd": "./check %s thorough" % pid,
             "evidence_file": "/verif/evidence/%s.json" % pid,
-            "replay_cmd_template": "./check-replay {path}",
+            "replay_cmd_template": "cat {path}",
             "engine": "vcheck",
             "level_claimed": {"category": level, "text": text, "design_ref": "DESIGN.md " + ref},
             "level_note": note,
@@ -38,15 +52,16 @@ def main():
         })
     na_path = os.path.join(ROOT, "tools", "not_applicable.json")
     na_over = json.load(open(na_path)) if os.path.exists(na_path) else {}
-    na = [{"property_id": p, "reason": na_over.get(p, NA_REASON_PENDING)} for p in ALL if p not in CHECKS]
+    na = [{"property_id": p, "reason": na_over.get(p, NA_REASON_PENDING)} for p in ALL if p not in table]
+    src_commits = []
     m = {
         "version": 1,
         "setup_cmd": "./setup.sh",
         "hooks": {
             "guard": "verif",
-            "enable": "no source hooks: checks build a harness module (replace => /repo) against the working tree; C33/C34 use go build -overlay files generated at check time from the current /repo sources",
+            "enable": "no source hooks: checks build a harness module (replace => /repo) against the working tree; C33 uses go test -overlay files generated at check time from the current /repo sources",
             "baseline_off_cmd": "for m in . ./deployments/pulumi ./pkg/client; do (cd /repo/$m && GOFLAGS=-mod=mod go test -json -vet=off -count=1 -timeout 25m ./...); done",
-            "source_commits": [],
+            "source_commits": src_commits,
             "add_only": True,
         },
         "engines": [
@@ -55,7 +70,7 @@ def main():
         ],
         "checks": checks,
         "not_applicable": na,
-        "notes": "exit 0 = held on everything explored; 1 = VIOLATION line; 2 = ENGINE-ERROR (harness defect, never a property verdict). Known findings: /verif/known_findings.json.",
+        "notes": "exit 0 = held on everything explored; 1 = VIOLATION line; 2 = ENGINE-ERROR (harness defect, never a property verdict). Known findings and fixed defects: /verif/known_findings.json.",
     }
     json.dump(m, open(os.path.join(ROOT, "MANIFEST.json"), "w"), indent=1)
     print("checks:", len(checks), "not_applicable:", len(na))
